@@ -43,8 +43,10 @@ AtomsOf(tok) ==
       [] tok.k \in {"Em", "St"} -> Atoms(tok.c)
       [] tok.k = "Link" ->
             IF tok.x = "inline" THEN <<<<"link", tok.s>>>>                 \* refreshable text
-            ELSE IF tok.x \in {"wiki", "auto"} THEN <<<<"link", tok.s>>>>  \* text is the destination itself
-            ELSE <<<<"link", tok.s>>>> \o Atoms(tok.c)                     \* piped wiki, external: text kept
+            ELSE IF tok.x = "auto" THEN <<<<"link", tok.s>>>>              \* text is the destination itself
+            ELSE IF tok.x = "wiki" THEN <<<<"wikilink", tok.s>>>>          \* text is the destination itself; a wiki link stays one
+            ELSE IF tok.x = "piped" THEN <<<<"wikilink", tok.s>>>> \o Atoms(tok.c)
+            ELSE <<<<"link", tok.s>>>> \o Atoms(tok.c)                     \* external: text kept
       [] tok.k = "Img" -> <<<<"img", tok.s>>>> \o Atoms(tok.c)
       [] OTHER -> <<>>
 
